@@ -1717,7 +1717,8 @@ class Stream(AbstractStream):
                 self.phase = phase
                 imol = other._imol.get_phase(phase)
             else:
-                self.phases = other.phases
+                self.empty() # All flows are overwritten below
+                self.phases = phases
                 imol = other._imol
         else:
             imol = other._imol
